@@ -43,4 +43,4 @@ for tname, idx in tables.items():
     items = '; '.join(f'{k} {"true" if nk else "false"}' for _, k, nk, _ in idx)
     lines.append(f'(* {", ".join(f"{n}<-obj.{a}" for n, _, _, a in idx)} *)')
     lines.append(f'Definition {tname}_kinds : list ikind := [{items}].')
-print(json.dumps({'text': '\n'.join(lines) + '\n', 'tables': tables}))
+print(json.dumps({'rel': 'Multikey/Gen_Tables.v', 'text': '\n'.join(lines) + '\n', 'tables': tables}))
